@@ -376,8 +376,14 @@ class TaskDispatcher(object):
                             }
                         )
 
+                """
+                Acknowledge the response that is stored now: it is a later one
+                than the captured message if that has been replaced (and then
+                acknowledged) by handle_rpcmessage_response in the meantime.
+                """
+                stored, _ = self.orphaned_responses[message.correlation_id]
                 del self.orphaned_responses[message.correlation_id]
-                message.acknowledge(multiple=False)
+                stored.acknowledge(multiple=False)
 
 
         correlation_id = message.correlation_id
@@ -675,12 +681,14 @@ class TaskDispatcher(object):
                         m, timeout_id = self.orphaned_responses[correlation_id]
                         m.acknowledge(multiple=False)
                         self.orphaned_responses[correlation_id] = (message, timeout_id)
-                    elif is_callback:
+                    else:
                         """
                         If the current response is a TaskToken callback it means
                         the currently stored orphaned response is an rpcmessage
-                        error response, so retain that and acknowledge the
-                        current message.
+                        error response or an earlier callback, so retain that
+                        and acknowledge the current message. The same goes for
+                        any further response to an ordinary request: only one
+                        response per correlation ID can ever be matched.
                         """
                         message.acknowledge(multiple=False)
                 else:
